@@ -31,8 +31,14 @@ where
     let target = ctx.read().await.target();
     let feature = ctx.read().await.feature();
     if let crate::context::TargetAddress::DomainPort(host, _) = &target {
-        // the request line and the Host header are delimited by spaces and CRLF
-        if host.is_empty() || host.bytes().any(|b| b <= b' ' || b == 0x7f) {
+        // the request line and the Host header are delimited by spaces and CRLF, and within the
+        // authority ":" separates the port, brackets mean an IPv6 literal and "@", "/", "?", "#"
+        // end or start other parts of a URI: a name with any of them reads as another destination
+        if host.is_empty()
+            || host
+                .bytes()
+                .any(|b| b <= b' ' || b == 0x7f || b":/?#[]@".contains(&b))
+        {
             bail!("target host can not be carried in a CONNECT request: {:?}", host);
         }
     }
